@@ -233,6 +233,10 @@ def check(prog, rep):
                   "NOT restricted to atoms equivalent to the corrected one - which atom is first, and hence the formal charge, depends on the listing order"),
                f"pdb2pqr/ligand/mol2.py:{c.lineno} (Mol2Atom.formal_charge)")
     # ------------------------------------------------------------------ R5
+    from .shared import rule_ligand_block_model
+    n_rules, n_def = len(rep.rules), len(rep.deferred)
+    rep.guarded(rule_ligand_block_model, prog, rep, "R6")
+    block_modelled = len(rep.rules) > n_rules and len(rep.deferred) == n_def
     r5 = rep.rule("R5", "ligand parameters are transferred to the ligand's atoms only, once", floor=2)
     nt = prog.func("main.py", "non_trivial").node
     stores = [s for s in iter_stmts(nt.body) if isinstance(s, ast.Assign) and U(s.targets[0]) in ("pdb_atom.ffcharge", "pdb_atom.radius")]
@@ -244,20 +248,20 @@ def check(prog, rep):
     f = reach_formula(stores[0], res_loop[0]) if res_loop else True
     atoms = formula_atoms(f)
     water_excl = [a for a in atoms if "aa.WAT" in a]
-    r5.add("transfer|recognised-residues-excluded", bool(water_excl) and any("pdb_atom.type == 'ATOM'" in a for a in atoms),
-           f"tests on the way to the stores: {sorted(atoms)}; polymer atoms (type ATOM) and waters must be excluded", wn)
+    if not block_modelled:  # (decided by R6 on the model complex: peptide and water atoms with ligand-like names keep their values)
+        r5.add("transfer|recognised-residues-excluded", bool(water_excl) and any("pdb_atom.type == 'ATOM'" in a for a in atoms),
+               f"tests on the way to the stores: {sorted(atoms)}; polymer atoms (type ATOM) and waters must be excluded", wn)
     ident = [a for a in atoms if ("residue.name" in a or "res_name" in a or "res_seq" in a or "all(" in a) and "aa.WAT" not in a]
     r5.add("transfer|hetero-by-name", bool(ident),
            "the transfer is keyed by atom name alone for every non-water hetero residue: another hetero group whose atom names "
            "occur in the MOL2 file receives ligand parameters" if not ident else f"transfer restricted by {ident}", wn)
-    src_vals = sorted(U(s.value) for s in stores)
-    r5.add("transfer|values", src_vals == ["mol2_atom.charge", "mol2_atom.radius"], f"stored values: {src_vals}", wn)
-    lk = [s for s in iter_stmts(nt.body) if isinstance(s, ast.Assign) and U(s.targets[0]) == "mol2_atom"]
-    r5.add("transfer|lookup", bool(lk) and U(lk[0].value) == "ligand.atoms[pdb_atom.name]", f"MOL2 atom looked up as {U(lk[0].value) if lk else '?'}", wn)
+    if not block_modelled:  # (decided by R6: the ligand atoms carry exactly the MOL2 values of the atom of their name)
+        src_vals = sorted(U(s.value) for s in stores)
+        r5.add("transfer|values", src_vals == ["mol2_atom.charge", "mol2_atom.radius"], f"stored values: {src_vals}", wn)
+        lk = [s for s in iter_stmts(nt.body) if isinstance(s, ast.Assign) and U(s.targets[0]) == "mol2_atom"]
+        r5.add("transfer|lookup", bool(lk) and U(lk[0].value) == "ligand.atoms[pdb_atom.name]", f"MOL2 atom looked up as {U(lk[0].value) if lk else '?'}", wn)
     gates = [(U(tst), p) for tst, p in guards_of(stores[0]) if "args.ligand" in U(tst)]
     r5.add("transfer|gated", gates == [("args.ligand is not None", True)], f"block runs under {gates}", wn)
-    from .shared import rule_ligand_block_model
-    rep.guarded(rule_ligand_block_model, prog, rep, "R6")
     from .c03 import _removed_hydrogens_are_rebuilt
     r7 = rep.rule("R7", "the ligand's own atoms reach the transfer: hydrogens are stripped only from residues that get them rebuilt", floor=1)
     rep.guarded(_removed_hydrogens_are_rebuilt, prog, r7)
